@@ -547,3 +547,7 @@ def check(chk):
                                 'opcode': Sym('opcode'), 'body': Sym('body'), 'decompressor': None, 'result_metadata': Sym('rm')})
     chk.judge(all(o.kind == 'raise' for o in outs), 'C04.prologue', dm, 'compressed frame without a decompressor raises', 'a compressed frame is decoded without decompression')
     chk.require('C04.prologue', 10)
+
+    # RESULT metadata names user-defined types through UserType.make_udt_class: a stale cached class decodes rows with the wrong fields
+    chk.rule('C04.udt', 'a cached UDT class is reused for result metadata only when its field names and field types are equal (shared with C28)')
+    chk.borrow('C28', {'C28.udt': 'C04.udt'}, 'column metadata of a later RESULT carries the stale type and its rows drop or mis-decode fields')
